@@ -285,6 +285,7 @@ func runStoreProp(prop, tier string, r *rng) {
 		flushInHandlerCaseOn(prop, "plain", 0, 7, 8, 12, 12)
 		flushInHandlerCaseOn(prop, "ctx", 2, 7, 8, 12, 12)
 		flushInHandlerCaseOn(prop, "plain", 2, 7, 8, 12, 12)
+		flushSnapshotRaceCase(prop, 7, 8, 12, 12)
 	}
 	if prop == "C08" || prop == "C14" {
 		for round := 0; round < 8; round++ { // which worker gets which height is up to the scheduler
@@ -859,4 +860,89 @@ func readDuringDeleteCase(prop string, flavour string, n, to int) {
 	}
 	emit("%s kind=readduringdelete flavour=%s n=%d to=%d => delete=%s readsthatfound=%d byheight=%s byhash=%s has=%s", prop, flavour, n, to, errs(e1), seen, js(byh), js(byhash), js(has))
 	run.close()
+}
+
+// flushSnapshotRaceCase: the headers of the range are still pending; in the middle of the deletion an Append fills the write
+// batch, the flush loop takes its snapshot of the pending headers and is parked right before its batch commit; the deletion
+// goes on (it removes the remaining headers from the pending batch) and returns; then the flush commits its snapshot.
+// What DeleteRange reported as removed must not come back.
+func flushSnapshotRaceCase(prop string, n, to, more, batch int) {
+	ctx := context.Background()
+	chain := vhdr.Chain("A", n+more+2, storeT0, int64(time.Second), 0)
+	core := memds.NewCore()
+	st, err := store.NewStore[*vhdr.Header](&memds.Plain{C: core}, store.WithWriteBatchSize(batch))
+	if err != nil {
+		panic(err)
+	}
+	if err := func() error { sc, end := startCtx(); defer end(); return st.Start(sc) }(); err != nil {
+		panic(err)
+	}
+	defer st.Stop(ctx) //nolint:errcheck
+	_ = st.Append(ctx, chain[:n]...)
+	_ = st.Sync(ctx)
+	parked, release := make(chan struct{}), make(chan struct{})
+	var fired, once sync.Once
+	trigger := uint64(to / 2)
+	st.OnDelete(func(ctx context.Context, h uint64) error {
+		if h == trigger {
+			once.Do(func() {
+				core.WriteGate = func(w memds.Write) {
+					if w.Batch {
+						fired.Do(func() { close(parked); <-release })
+					}
+				}
+				_ = st.Append(ctx, chain[n:n+more]...) // fills the batch: the flush loop snapshots pending and parks at its commit
+				select {
+				case <-parked:
+					// the commit goes through a little later - the deletion either waits for it or runs ahead of it
+					go func() { time.Sleep(40 * time.Millisecond); close(release) }()
+				case <-time.After(2 * time.Second):
+					close(release)
+				}
+			})
+		}
+		return nil
+	})
+	c, cancel := context.WithTimeout(ctx, 5*time.Second)
+	e1 := st.DeleteRange(c, 1, uint64(to))
+	cancel()
+	was := "yes"
+	select {
+	case <-parked:
+	default:
+		was = "no"
+		close(release)
+	}
+	time.Sleep(60 * time.Millisecond)
+	core.WriteGate = nil
+	_ = st.Sync(ctx)
+	_ = st.Append(ctx, chain[n+more:]...)
+	_ = st.Sync(ctx)
+	hd, tl := uint64(0), uint64(0)
+	if h, err := st.Head(ctx); err == nil {
+		hd = h.H
+	}
+	if h, err := st.Tail(ctx); err == nil {
+		tl = h.H
+	}
+	var stored, keys []string
+	snap := core.Snapshot()
+	for h := 1; h <= n+more+2; h++ {
+		if x, err := st.GetByHeight(cancelled, uint64(h)); err == nil && x.H == uint64(h) {
+			stored = append(stored, itoa(h))
+		}
+		if _, ok := snap["/"+itoa(h)]; ok {
+			keys = append(keys, itoa(h))
+		} else if _, ok := snap["/headers/"+itoa(h)]; ok {
+			keys = append(keys, itoa(h))
+		}
+	}
+	js := func(xs []string) string {
+		if len(xs) == 0 {
+			return "-"
+		}
+		return strings.Join(xs, ",")
+	}
+	emit("%s kind=flushinhandler flavour=plain-snapshotrace failcommits=0 n=%d to=%d more=%d batch=%d => parked=%s delete=%s head=%d tail=%d stored=%s keys=%s second=ok handledTwice=0", prop, n, to, more, batch,
+		was, errs(e1), hd, tl, js(stored), js(keys))
 }
